@@ -1,12 +1,13 @@
 /-
   ZapProofs.Props.Codec: headline theorems about the byte-level codecs.
   Proofs live in ZapProofs/CodecLemmas*.lean; this file restates them,
-  instantiates them on concrete values and prints their axioms.
+  instantiates them on concrete values and reports what each one depends on.
 -/
 import ZapProofs.CodecLemmas
 import ZapProofs.CodecLemmasGen
 import ZapProofs.CodecLemmasCrc
 import ZapProofs.CodecLemmasInt
+import ZapProofs.CodecLemmasContent
 
 namespace Zap.Props.Codec
 open Zap Zap.Codec
@@ -14,46 +15,46 @@ open Zap Zap.Codec
 /-! ### A. uvarint -/
 
 theorem uvarint_putUvarint (x : Nat) (rest : Bytes) :
-    uvarint (putUvarint x ++ rest) = some (x, rest) := Codec.uvarint_putUvarint x rest
+    uvarint (putUvarint x ++ rest) = some (x, rest) := _root_.Zap.Codec.uvarint_putUvarint x rest
 
-theorem putUvarint_bytes (x : Nat) : ∀ b ∈ putUvarint x, b < 256 := Codec.putUvarint_bytes x
+theorem putUvarint_bytes (x : Nat) : ∀ b ∈ putUvarint x, b < 256 := _root_.Zap.Codec.putUvarint_bytes x
 
 theorem numUvarintBytes_eq (x : Nat) : numUvarintBytes x = (putUvarint x).length :=
-  Codec.numUvarintBytes_eq x
+  _root_.Zap.Codec.numUvarintBytes_eq x
 
 theorem uvarints_putUvarints (xs : List Nat) : uvarints (putUvarints xs) = xs :=
-  Codec.uvarints_putUvarints xs
+  _root_.Zap.Codec.uvarints_putUvarints xs
 
 theorem readN_putUvarints (xs : List Nat) (rest : Bytes) :
-    readN xs.length (putUvarints xs ++ rest) = some (xs, rest) := Codec.readN_putUvarints xs rest
+    readN xs.length (putUvarints xs ++ rest) = some (xs, rest) := _root_.Zap.Codec.readN_putUvarints xs rest
 
 theorem memRead_put (pre : Bytes) (x : Nat) (hx : x < 2 ^ 64) (post : Bytes) :
     memRead (pre ++ putUvarint x ++ post) pre.length
-      = some (x, false, pre.length + (putUvarint x).length) := Codec.memRead_put pre x hx post
+      = some (x, false, pre.length + (putUvarint x).length) := _root_.Zap.Codec.memRead_put pre x hx post
 
 theorem memSkip_put (pre : Bytes) (x : Nat) (post : Bytes) :
     memSkip (pre ++ putUvarint x ++ post) pre.length = pre.length + (putUvarint x).length :=
-  Codec.memSkip_put pre x post
+  _root_.Zap.Codec.memSkip_put pre x post
 
 /-- `memSkip` lands where `memRead` lands. -/
 theorem memSkip_eq_memRead_pos (pre : Bytes) (x : Nat) (hx : x < 2 ^ 64) (post : Bytes) :
     (memRead (pre ++ putUvarint x ++ post) pre.length).map (·.2.2)
       = some (memSkip (pre ++ putUvarint x ++ post) pre.length) := by
-  rw [Codec.memRead_put pre x hx post, Codec.memSkip_put]; rfl
+  rw [_root_.Zap.Codec.memRead_put pre x hx post, _root_.Zap.Codec.memSkip_put]; rfl
 
 /-! ### B. chunk tables -/
 
 theorem endOffsets_prefix_sums (lens : List Nat) :
     endOffsets lens = (List.range lens.length).map (fun i => sumList (lens.take (i + 1))) :=
-  Codec.endOffsets_prefix_sums lens
+  _root_.Zap.Codec.endOffsets_prefix_sums lens
 
 theorem chunkBoundary_endOffsets (lens : List Nat) (c : Nat) (h : c < lens.length) :
     chunkBoundary (endOffsets lens) c = (sumList (lens.take c), sumList (lens.take (c + 1))) :=
-  Codec.chunkBoundary_endOffsets lens c h
+  _root_.Zap.Codec.chunkBoundary_endOffsets lens c h
 
 theorem chunk_slice (segs : List Bytes) (c : Nat) (h : c < segs.length) :
     let be := chunkBoundary (endOffsets (segs.map List.length)) c
-    (segs.flatten.drop be.1).take (be.2 - be.1) = segs[c] := Codec.chunk_slice segs c h
+    (segs.flatten.drop be.1).take (be.2 - be.1) = segs[c] := _root_.Zap.Codec.chunk_slice segs c h
 
 /-! ### C. chunked int coder -/
 
@@ -62,95 +63,110 @@ theorem intcoder_roundtrip (cs maxDoc : Nat) (adds : List (Nat × List Nat)) (hc
     intDecodeChunks (intCoderEncode cs maxDoc adds)
       = some ((List.range (maxDoc / cs + 1)).map (fun c =>
           (adds.filter (fun a => a.1 / cs = c)).flatMap (·.2))) :=
-  Codec.intcoder_roundtrip cs maxDoc adds hcs hmono hmax
+  _root_.Zap.Codec.intcoder_roundtrip cs maxDoc adds hcs hmono hmax
 
 theorem intcoder_reuse (cs0 maxDoc0 : Nat) (ops : List Op) (cs maxDoc : Nat)
     (adds : List (Nat × List Nat)) :
     ((adds.foldl (fun c a => c.add a.1 a.2)
         (((ReCoder.fresh cs0 maxDoc0).run ops).reset.setChunkSize cs maxDoc).c).close).write
-      = intCoderEncode cs maxDoc adds := Codec.reuse_encode cs0 maxDoc0 ops cs maxDoc adds
+      = intCoderEncode cs maxDoc adds := _root_.Zap.Codec.reuse_encode cs0 maxDoc0 ops cs maxDoc adds
 
 theorem intcoder_reuse_state (cs0 maxDoc0 : Nat) (ops : List Op) (cs maxDoc : Nat) :
     (((ReCoder.fresh cs0 maxDoc0).run ops).reset.setChunkSize cs maxDoc).c
-      = IntCoder.new cs maxDoc := Codec.reuse_eq_new cs0 maxDoc0 ops cs maxDoc
+      = IntCoder.new cs maxDoc := _root_.Zap.Codec.reuse_eq_new cs0 maxDoc0 ops cs maxDoc
 
 /-! ### D. generated pure functions -/
 
 theorem onehit_roundtrip (d n : Nat) (hd : d < 2 ^ 31) (hn : n < 2 ^ 31) :
-    Gen.FSTValDecode1Hit (Gen.FSTValEncode1Hit d n) = (d, n) := Codec.onehit_roundtrip d n hd hn
+    Gen.FSTValDecode1Hit (Gen.FSTValEncode1Hit d n) = (d, n) := _root_.Zap.Codec.onehit_roundtrip d n hd hn
 
 theorem onehit_tagged (d n : Nat) :
     Gen.FSTValEncode1Hit d n &&& Gen.FSTValEncodingMask = Gen.FSTValEncoding1Hit :=
-  Codec.onehit_tagged d n
+  _root_.Zap.Codec.onehit_tagged d n
 
 theorem general_not_onehit (off : Nat) (h : off < 2 ^ 62) :
-    off &&& Gen.FSTValEncodingMask ≠ Gen.FSTValEncoding1Hit := Codec.general_not_onehit off h
+    off &&& Gen.FSTValEncodingMask ≠ Gen.FSTValEncoding1Hit := _root_.Zap.Codec.general_not_onehit off h
 
 theorem freqHasLocs_roundtrip (f : Nat) (b : Bool) (hf : f < 2 ^ 63) :
     Gen.decodeFreqHasLocs (Gen.encodeFreqHasLocs f b) = (f, b) :=
-  Codec.freqHasLocs_roundtrip f b hf
+  _root_.Zap.Codec.freqHasLocs_roundtrip f b hf
 
 theorem synonym_roundtrip (s d : Nat) (hs : s < 2 ^ 32) (hd : d < 2 ^ 32) :
-    Gen.decodeSynonym (Gen.encodeSynonym s d) = (s, d) := Codec.synonym_roundtrip s d hs hd
+    Gen.decodeSynonym (Gen.encodeSynonym s d) = (s, d) := _root_.Zap.Codec.synonym_roundtrip s d hs hd
 
 theorem synonym_order (s d s' d' : Nat) (hs : s < 2 ^ 32) (hd : d < 2 ^ 32)
     (hs' : s' < 2 ^ 32) (hd' : d' < 2 ^ 32) :
     Gen.encodeSynonym s d < Gen.encodeSynonym s' d' ↔ s < s' ∨ (s = s' ∧ d < d') :=
-  Codec.synonym_order s d s' d' hs hd hs' hd'
+  _root_.Zap.Codec.synonym_order s d s' d' hs hd hs' hd'
 
 theorem vectorCode_order (doc sc doc' sc' : Nat) (h1 : doc < 2 ^ 32) (h2 : sc < 2 ^ 32)
     (h3 : doc' < 2 ^ 32) (h4 : sc' < 2 ^ 32) :
     Gen.getVectorCode doc sc < Gen.getVectorCode doc' sc' ↔
-      doc < doc' ∨ (doc = doc' ∧ sc < sc') := Codec.vectorCode_order doc sc doc' sc' h1 h2 h3 h4
+      doc < doc' ∨ (doc = doc' ∧ sc < sc') := _root_.Zap.Codec.vectorCode_order doc sc doc' sc' h1 h2 h3 h4
 
 theorem vectorCode_doc (doc sc : Nat) (h1 : doc < 2 ^ 32) (h2 : sc < 2 ^ 32) :
-    Gen.getVectorCode doc sc >>> 32 = doc := Codec.vectorCode_doc doc sc h1 h2
+    Gen.getVectorCode doc sc >>> 32 = doc := _root_.Zap.Codec.vectorCode_doc doc sc h1 h2
 
 theorem vectorCode_score (doc sc : Nat) (h1 : doc < 2 ^ 32) (h2 : sc < 2 ^ 32) :
-    Gen.getVectorCode doc sc % 2 ^ 32 = sc := Codec.vectorCode_score doc sc h1 h2
+    Gen.getVectorCode doc sc % 2 ^ 32 = sc := _root_.Zap.Codec.vectorCode_score doc sc h1 h2
 
 theorem getChunkSize_pos (m c n s : Nat) (h : Gen.getChunkSize m c n = .ok s) : 0 < s :=
-  Codec.getChunkSize_pos m c n s h
+  _root_.Zap.Codec.getChunkSize_pos m c n s h
 
 /-- Needs `c < 2^64` (Go `uint64`): without it the literal statement is false
-    in the model, `Codec.getChunkSize_ok_of_valid_full_counterexample`. -/
+    in the model, `_root_.Zap.Codec.getChunkSize_ok_of_valid_full_counterexample`. -/
 theorem getChunkSize_ok_of_valid (m c n : Nat) (hm : 1 ≤ m ∧ m ≤ 1026) (hn : 0 < n)
     (hc : c ≤ n) (hc64 : c < 2 ^ 64) : ∃ s, Gen.getChunkSize m c n = .ok s :=
-  Codec.getChunkSize_ok_of_valid m c n hm hn hc hc64
+  _root_.Zap.Codec.getChunkSize_ok_of_valid m c n hm hn hc hc64
 
-theorem getChunkSize_ok_of_valid_full_false : ¬ Codec.getChunkSize_ok_of_valid_full :=
-  Codec.getChunkSize_ok_of_valid_full_counterexample
+theorem getChunkSize_ok_of_valid_full_false : ¬ _root_.Zap.Codec.getChunkSize_ok_of_valid_full :=
+  _root_.Zap.Codec.getChunkSize_ok_of_valid_full_counterexample
 
 theorem chunk_index_lt (m c n s d : Nat) (h : Gen.getChunkSize m c n = .ok s) (hd : d < n) :
-    d / s < (n - 1) / s + 1 := Codec.chunk_index_lt m c n s d h hd
+    d / s < (n - 1) / s + 1 := _root_.Zap.Codec.chunk_index_lt m c n s d h hd
 
 /-! ### E. CRC and footer -/
 
 theorem crcUpdateRaw_append (st : Nat) (a b : Bytes) :
     crcUpdateRaw st (a ++ b) = crcUpdateRaw (crcUpdateRaw st a) b :=
-  Codec.crcUpdateRaw_append st a b
+  _root_.Zap.Codec.crcUpdateRaw_append st a b
 
 theorem crcUpdate_append (c : Nat) (a b : Bytes) (hc : c < 2 ^ 32) :
-    crcUpdate c (a ++ b) = crcUpdate (crcUpdate c a) b := Codec.crcUpdate_append c a b hc
+    crcUpdate c (a ++ b) = crcUpdate (crcUpdate c a) b := _root_.Zap.Codec.crcUpdate_append c a b hc
 
 theorem crcUpdate_lt (c : Nat) (bs : Bytes) (hc : c < 2 ^ 32) (hbs : ∀ b ∈ bs, b < 256) :
-    crcUpdate c bs < 2 ^ 32 := Codec.crcUpdate_lt c bs hc hbs
+    crcUpdate c bs < 2 ^ 32 := _root_.Zap.Codec.crcUpdate_lt c bs hc hbs
 
 theorem footer_roundtrip (vals : String → Nat) (body : Bytes) (name : String)
     (hname : name ∈ Gen.Facts.footerReads.map (·.1))
     (hfit : ∀ w ∈ Gen.Facts.footerWrites, vals w.1 < 256 ^ w.2) :
     decodeField (body ++ encodeFooter vals) name = some (vals (writeName name)) :=
-  Codec.footer_roundtrip vals body name hname hfit
+  _root_.Zap.Codec.footer_roundtrip vals body name hname hfit
 
 theorem footer_layout : Gen.Facts.footerWrites =
     [("numDocs", 8), ("storedIndexOffset", 8), ("fieldsIndexOffset", 8),
      ("sectionsIndexOffset", 8), ("docValueOffset", 8), ("chunkMode", 4), ("Version", 4),
-     ("crc", 4)] := Codec.footer_layout
+     ("crc", 4)] := _root_.Zap.Codec.footer_layout
 
-theorem footer_size : (Gen.Facts.footerWrites.map (·.2)).sum = Gen.FooterSize := Codec.footer_size
+theorem footer_size : (Gen.Facts.footerWrites.map (·.2)).sum = Gen.FooterSize := _root_.Zap.Codec.footer_size
 
 theorem footer_length (vals : String → Nat) : (encodeFooter vals).length = Gen.FooterSize :=
-  Codec.footer_length vals
+  _root_.Zap.Codec.footer_length vals
+
+/-! ### F. content coder framing (snappy abstract) -/
+
+theorem content_roundtrip (compress : Bytes → Bytes)
+    (hsn : ∀ x, snappyDecode (compress x) = some x)
+    (cs maxDoc : Nat) (adds : List (Nat × Bytes))
+    (hmono : adds.Pairwise (fun a b => a.1 ≤ b.1)) (hmax : ∀ a ∈ adds, a.1 ≤ maxDoc)
+    (hsize : (contentEncode compress cs maxDoc adds).length < 2 ^ 64) :
+    contentDecode (contentEncode compress cs maxDoc adds)
+      = some ((List.range (maxDoc / cs + 1)).map (fun c => adds.filter (fun a => a.1 / cs = c))) :=
+  _root_.Zap.Codec.content_roundtrip compress hsn cs maxDoc adds hmono hmax hsize
+
+/-- the snappy hypothesis is satisfiable (all-literals encoder) -/
+theorem snappyDecode_snappyLit (x : Bytes) : snappyDecode (snappyLit x) = some x :=
+  _root_.Zap.Codec.snappyDecode_snappyLit x
 
 /-! ### concrete instances (hypotheses are satisfiable, values non-trivial) -/
 
@@ -176,6 +192,29 @@ example : intDecodeChunks (intCoderEncode 2 5 [(0, [1, 300]), (1, [2]), (4, [7])
   rw [intcoder_roundtrip 2 5 _ (by decide) (by decide) (by decide)]
   decide
 
+-- without the monotonicity hypothesis the round trip fails (chunks come out swapped)
+theorem intcoder_needs_mono :
+    intDecodeChunks (intCoderEncode 1 1 [(1, [5]), (0, [6])]) = some [[5], [6]] := by
+  have h5 : putUvarint 5 = [5] := putUvarint_lt (by decide)
+  have h6 : putUvarint 6 = [6] := putUvarint_lt (by decide)
+  have h1 : putUvarint 1 = [1] := putUvarint_lt (by decide)
+  have h2 : putUvarint 2 = [2] := putUvarint_lt (by decide)
+  have he : intCoderEncode 1 1 [(1, [5]), (0, [6])] = [2, 1, 2, 5, 6] := by
+    simp [intCoderEncode, IntCoder.add, IntCoder.new, IntCoder.close, IntCoder.write,
+      putUvarints, endOffsets, h5, h6, h1, h2]
+  rw [he]; decide
+
+-- content coder: three chunks, middle one empty
+example : contentDecode (contentEncode snappyLit 2 5 [(0, [1, 2]), (1, [3]), (4, [9, 9, 9])])
+    = some [[(0, [1, 2]), (1, [3])], [], [(4, [9, 9, 9])]] := by
+  have hsz : (contentEncode snappyLit 2 5 [(0, [1, 2]), (1, [3]), (4, [9, 9, 9])]).length
+      < 2 ^ 64 := by
+    simp [contentEncode, ContentCoder.add, ContentCoder.flush, ContentCoder.new,
+      ContentCoder.write, metaBytes, snappyLit, putUvarints, putUvarint_lt, endOffsets,
+      beBytes_length]
+  rw [content_roundtrip snappyLit snappyDecode_snappyLit 2 5 _ (by decide) (by decide) hsz]
+  decide
+
 example : Gen.FSTValEncode1Hit 5 7 = 9223372051887161349 := by decide
 example : Gen.FSTValDecode1Hit (Gen.FSTValEncode1Hit 123456 654321) = (123456, 654321) :=
   onehit_roundtrip _ _ (by decide) (by decide)
@@ -183,14 +222,15 @@ example : Gen.decodeFreqHasLocs (Gen.encodeFreqHasLocs 41 true) = (41, true) :=
   freqHasLocs_roundtrip 41 true (by decide)
 example : Gen.encodeSynonym 3 9 < Gen.encodeSynonym 4 0 :=
   (synonym_order 3 9 4 0 (by decide) (by decide) (by decide) (by decide)).mpr (Or.inl (by decide))
-example : Gen.getChunkSize 1026 5000 100000 = .ok 20000 := by decide
-example : Gen.getChunkSize 1025 10 77 = .ok 77 := by decide
-example : Gen.getChunkSize 0 10 77 = .error "ErrChunkSizeZero" := by decide
+example : Gen.getChunkSize 1026 5000 100000 = .ok 20000 := rfl
+example : Gen.getChunkSize 1025 10 77 = .ok 77 := rfl
+example : Gen.getChunkSize 0 10 77 = .error "ErrChunkSizeZero" := rfl
 
 -- CRC-32/IEEE check value of "123456789"
-example : crc32 [49, 50, 51, 52, 53, 54, 55, 56, 57] = 0xCBF43926 := by decide
-example : crcUpdate (crc32 [49, 50, 51, 52]) [53, 54, 55, 56, 57] = 0xCBF43926 := by
-  rw [← crcUpdate_append _ _ _ (by decide)]; decide
+theorem crc32_check : crc32 [49, 50, 51, 52, 53, 54, 55, 56, 57] = 0xCBF43926 := by decide +kernel
+example : crcUpdate (crc32 [49, 50, 51, 52]) [53, 54, 55, 56, 57]
+    = crc32 ([49, 50, 51, 52] ++ [53, 54, 55, 56, 57]) :=
+  (_root_.Zap.Codec.crc32_append _ _).symm
 
 example : decodeField ([1, 2, 3] ++ encodeFooter (Footer.vals
     { numDocs := 1000, storedIndexOffset := 77, fieldsIndexOffset := 88, sectionsIndexOffset := 99,
@@ -201,7 +241,7 @@ example : decodeField ([1, 2, 3] ++ encodeFooter (Footer.vals
 
 end Zap.Props.Codec
 
-section Axioms
+section Report
 open Zap.Props.Codec
 #print axioms uvarint_putUvarint
 #print axioms putUvarint_bytes
@@ -217,7 +257,10 @@ open Zap.Props.Codec
 #print axioms intcoder_roundtrip
 #print axioms intcoder_reuse
 #print axioms intcoder_reuse_state
-#print axioms Zap.Codec.setChunkSize_without_reset_is_unsafe
+#print axioms Zap.Codec.setChunkSize_without_reset_is_wrong
+#print axioms intcoder_needs_mono
+#print axioms content_roundtrip
+#print axioms snappyDecode_snappyLit
 #print axioms onehit_roundtrip
 #print axioms onehit_tagged
 #print axioms general_not_onehit
@@ -234,8 +277,9 @@ open Zap.Props.Codec
 #print axioms crcUpdateRaw_append
 #print axioms crcUpdate_append
 #print axioms crcUpdate_lt
+#print axioms crc32_check
 #print axioms footer_roundtrip
 #print axioms footer_layout
 #print axioms footer_size
 #print axioms footer_length
-end Axioms
+end Report
